@@ -1062,7 +1062,11 @@ class PDFDocument:
         xrefs: List[PDFBaseXRef],
     ) -> None:
         """Reads XRefs from the given location."""
-        parser.seek(start)
+        try:
+            parser.seek(start)
+        except (OverflowError, ValueError, OSError):
+            # e.g. a /Prev that is negative or does not fit a file offset
+            raise PDFNoValidXRef(f"Invalid xref position: {start}")
         parser.reset()
         try:
             (pos, token) = parser.nexttoken()
